@@ -102,6 +102,16 @@ def in_lit(facts, x, vals, adt, positive=True):
     if x[0] == "call" and x[1].endswith("::branch") and "result::Result" in x[1] and len(x[2]) == 1 and vals <= frozenset(["Continue", "Break"]):
         m = {"Continue": "Ok", "Break": "Err"}
         return in_lit(facts, x[2][0], [m[v] for v in vals], "core::result::Result", positive)
+    # a.cmp(&b) in {Less} == a < b, ... (three-way comparison of integers read as the comparisons it stands for)
+    if x[0] == "call" and len(x[2]) == 2 and (x[1].endswith("cmp::Ord::cmp") or x[1].endswith("Ord>::cmp") or x[1].endswith("::cmp")) and vals <= frozenset(["Less", "Equal", "Greater"]) and vals:
+        a_, b_ = x[2]
+        vs = vals if positive else frozenset(["Less", "Equal", "Greater"]) - vals
+        table = {frozenset(["Less"]): (mk_bin("Lt", a_, b_), True), frozenset(["Greater"]): (mk_bin("Lt", b_, a_), True),
+                 frozenset(["Equal"]): (mk_bin("Eq", a_, b_), True), frozenset(["Less", "Equal"]): (mk_bin("Lt", b_, a_), False),
+                 frozenset(["Greater", "Equal"]): (mk_bin("Lt", a_, b_), False), frozenset(["Less", "Greater"]): (mk_bin("Eq", a_, b_), False)}
+        if vs in table:
+            e_, v_ = table[vs]
+            return norm_lit(facts, e_, v_)
     # a value whose variant is known
     if adt is not None:
         known = None
